@@ -36,7 +36,8 @@ class SPEC:
             "stored, stored+1, huge, negative, -0, +n, leading zeros, non-numeric, > int64} x format in {absent, empty, json, "
             "text, invalid} through net/http/httptest, wrong methods on both endpoints, POST /reset. Session kinds: small "
             "(0..40 ops), boundary (fill to cap-2..cap+3 with queries around the cap), flood (more than 3 x cap arrivals of "
-            "tiny entries with queries and, in some, a reset on the way). Observations: entries held + newest entry after "
+            "tiny entries with queries and, in some, a reset on the way), huge (one legal message of 600..3000 records of 20..64 one- or "
+            "two-octet fields - at most 65535 octets on the wire, more than a mebibyte rendered - queried in both formats). Observations: entries held + newest entry after "
             "every arrival, status + full body for every request; compared byte for byte with the Lean model; "
             "Ipfix.C20.verdict evaluated on every implementation observation. A session is non-trivial if its arrivals "
             "exceed the cap or it contains a valid query; distinct by hash of the ops.")
@@ -324,10 +325,38 @@ def flood_session(rng, bt, with_reset):
     return s
 
 
+def huge_session(rng, bt):
+    """one legal message (<= 65535 octets on the wire) whose RENDERING is huge: hundreds of records of dozens of short
+    fields, more than a mebibyte of text - every field of every record must still be in the entry, in both formats"""
+    s = Session("huge")
+    if rng.random() < 0.5:
+        s.add(gen_add(rng, bt))
+    nf = rng.choice([20, 50, 64])
+    # the first field of every record is a 32-bit counter: its line occurs ONCE in the rendering (the short fields' lines
+    # repeat from record to record, and a line is demanded to occur, not to occur once per record)
+    ies = [rng.choice(bt[3])] + [rng.choice(bt[1] + bt[11] + bt[2]) for _ in range(nf - 1)]
+    width = sum(G.WIDTH.get(ie.ty, 1) for ie in ies)
+    nrec = min((65535 - 20) // width, rng.choice([600, 1200, 3000]))
+    base = rng.getrandbits(31)
+    recs = [",".join(["n%d" % (base + k)] + [("n%d" % rng.getrandbits(8)) if ie.ty != 11 else rng.choice("tf") for ie in ies[1:]])
+            for k in range(nrec)]
+    s.add("store add data %s %s %s" % (header(rng), ",".join(ie.tok() for ie in ies), ";".join(recs)))
+    for fmt in ("text", "json"):
+        s.ops.append("store records GET %s %s" % (param("1"), param(fmt)))
+        s.valid_queries += 1
+    if rng.random() < 0.5:
+        s.add(gen_add(rng, bt))
+        s.ops.append("store records GET %s %s" % (param("2"), param(rng.choice(["text", "json"]))))
+        s.valid_queries += 1
+    return s
+
+
 def gen_cases(rng, tier):
     bt = G.by_type()
     sessions = []
     nsmall, nbound, nflood = (400, 2, 3) if tier == "quick" else (120000, 48, 160)
+    for _ in range(3 if tier == "quick" else 40):
+        sessions.append(huge_session(random.Random(rng.getrandbits(64)), bt))
     for i in range(nflood):
         sessions.append(flood_session(rng, bt, with_reset=(i % 3 == 2)))
     for _ in range(nbound):
